@@ -17,3 +17,39 @@ Theorem C03_example :
   end.
 Proof. vm_compute. auto. Qed.
 Print Assumptions C03_example.
+
+(* ---- declarative form and what is proved of it ------------------------------------------------------------ *)
+From TrV Require Import Optimal Proofs.RefSpec Proofs.ValidAdm.
+
+(* the reference solver the check runs on every implementation answer IS a decision procedure for the declarative
+   optimum: it returns Some t exactly when an admissible journey exists, and then t is the minimum arrival over ALL
+   admissible journeys (inductive journeys of Admissible.v; label-correcting fixpoint proved stable) *)
+Theorem C03_reference_solver_correct : forall d s p acc egr,
+  wf_data_b d = true -> wf_params_b p = true ->
+  match earliest_arrival_ref d s p acc egr with
+  | Some t => (exists rides, admissible_fwd d s p acc egr rides t) /\
+              (forall rides t', admissible_fwd d s p acc egr rides t' -> t <= t')
+  | None => forall rides t', ~ admissible_fwd d s p acc egr rides t'
+  end.
+Proof. exact earliest_arrival_ref_correct. Qed.
+Print Assumptions C03_reference_solver_correct.
+
+(* half of C03_decl: the reported arrival is attained by an admissible journey (hence >= the optimum) *)
+Theorem C03_arrival_attained : forall d s p acc egr,
+  opt_domain d s p acc egr -> q_fwd p = true -> C03_attained_prop d s p acc egr.
+Proof. exact C03_attained. Qed.
+Print Assumptions C03_arrival_attained.
+
+(* tie to the source: the model's forward step and best-egress selection are the control skeleton instantiated with
+   the guards tools/gen_guards.py translated from forward_calculation.cpp AS IT IS NOW (gen/Guards.v) *)
+From TrV Require Import Proofs.GuardsTie.
+Theorem C03_forward_step_is_code : forall d p k st c, fwd_step_code d p k st c = fwd_step d p k false st c.
+Proof. exact fwd_step_tie. Qed.
+Print Assumptions C03_forward_step_is_code.
+Theorem C03_best_egress_is_code : forall p k st, best_egress_sk G.gen_fwd_best_time G.gen_fwd_best_ok p k st = best_egress p k st.
+Proof. exact best_egress_tie. Qed.
+Print Assumptions C03_best_egress_is_code.
+
+Theorem C03_reverse_step_is_code : forall d p k st c, rev_step_code d p k st c = rev_step d p k false st c.
+Proof. exact rev_step_tie. Qed.
+Print Assumptions C03_reverse_step_is_code.
